@@ -78,6 +78,7 @@ func c08Hint(fs *Facts, f *File) {
 	if fd == nil {
 		return
 	}
+	c07Canon(fd, []string{"f", "path", "v", "ok", "vals", "i", "s", "vals", "i", "n", "vals", "i", "n"})
 	where := c08At(c08Planner, f, fd)
 	var sw *ast.SwitchStmt
 	for _, st := range fd.Body.List {
@@ -145,6 +146,9 @@ func c08Plan(fs *Facts, f *File) {
 	if or == nil || and == nil || pf == nil {
 		return
 	}
+	c07Canon(or, []string{"group", "hints", "leg", "hint", "ok"})
+	c07Canon(and, []string{"group", "i", "leg", "hint", "ok", "i", "sub", "subPlan"})
+	c07Canon(pf, []string{"group", "logic"})
 	if first, ok := or.Body.List[0].(*ast.IfStmt); ok {
 		cond := f.Str(first.Cond)
 		ret := f.Str(first.Body) == "{ return Plan{Mode: PlanModeBypass} }"
@@ -171,6 +175,9 @@ func c08Stream(fs *Facts, f *File) {
 	if fd == nil {
 		return
 	}
+	c07Canon(fd, []string{"g", "in", "stream", "swampName", "err", "hydraInterface", "swampInterface", "fromTime", "toTime", "beaconType",
+		"order", "filters", "plan", "treasures", "residualFilters", "candidates", "err", "maxResults", "includeMap", "excludeMap",
+		"needsMeta", "matchCount", "treasureInterface", "key", "included", "excluded", "matched", "meta", "resp", "t", "err"})
 	where := c08At(c08Gateway, f, fd)
 	src := f.Str(fd.Body)
 	steps := "candidates := collectBucketCandidates(swampInterface, plan.Hints) candidates = applyTimeRange(candidates, beaconType, fromTime, toTime) sortCandidates(candidates, beaconType, order) treasures = applyFromLimit(candidates, in.GetFrom(), in.GetLimit()) residualFilters = plan.Residual"
@@ -208,6 +215,10 @@ func c08ExecFacts(fs *Facts, f *File) {
 		fs.Tri("execPreconditions", Yes, c08At(c08Exec, f, pre))
 	}
 	col := f.Func("", "collectBucketCandidates")
+	c07Canon(col, []string{"sw", "hints", "h", "seen", "out", "h", "hits", "t", "k", "dup"})
+	c07Canon(f.Func("", "applyTimeRange"), []string{"candidates", "beaconType", "fromTime", "toTime", "fromNs", "toNs", "out", "t", "ts"})
+	c07Canon(f.Func("", "beaconTimeOf"), []string{"t", "beaconType"})
+	c07Canon(pre, []string{"beaconType"})
 	if col != nil {
 		src := f.Str(col.Body)
 		if strings.Contains(src, "if len(hints) == 1 {") && strings.Contains(src, "return sw.LookupByBucketEqual(h.FieldPath, h.Values[0])") &&
@@ -255,6 +266,8 @@ func c08Scan(fs *Facts, f *File) {
 	if fd == nil {
 		return
 	}
+	c07Canon(fd, []string{"decoded", "filter", "op", "fieldVal", "ams", "ok", "isEmpty", "s", "ok", "mapVal", "ok", "cv", "exists", "cv",
+		"v", "ok", "v", "ok", "v", "ok", "v", "ok", "v", "ok", "v", "ok", "v", "ok", "v", "ok", "v", "ok", "v", "ok", "v", "ok", "v", "ok", "ref"})
 	where := c08At(c08Native, f, fd)
 	src := f.Str(fd.Body)
 	std := strings.Contains(src, "fieldVal := extractFieldByPath(decoded, *filter.BytesFieldPath)") &&
@@ -278,6 +291,7 @@ func c08BucketFacts(fs *Facts, f *File) {
 	if fd == nil {
 		return
 	}
+	c07Canon(fd, []string{"b", "values", "seen", "out", "v", "want", "t", "k", "dup"})
 	src := f.Str(fd.Body)
 	if strings.Contains(src, "for _, t := range collectMatchingLocked(b, want) {") {
 		if strings.Contains(src, "if _, dup := seen[k]; dup { continue } seen[k] = struct{}{} out = append(out, t)") {
